@@ -182,5 +182,6 @@ def main(run):
                       outside="grids > 7x7, > 9 layers, other profile families, rounding")
     cex = run.pmap(worker, scs)
     kindl.handle_cex(run, PID, cex, replay)
-    pick = [s for s in scs if s["ny"] % 2 == 0 and s["nx"] % 2 == 0 and s["ny"] * s["dy"] != s["nx"] * s["dx"]][:2]
+    cscs = kindl.base_scenarios("quick", 0, max_cells=30)
+    pick = [s for s in cscs if s["ny"] % 2 == 0 and s["nx"] % 2 == 0 and s["ny"] * s["dy"] != s["nx"] * s["dx"]][:2]
     kindl.run_canaries(run, "vf.props.C06:canary_probe", CANARIES, pick)
